@@ -299,6 +299,96 @@ func (e *sysfsmEngine) Exec(line string) (obs string, viol string) {
 			}
 		}
 		return "-", viol
+	case "busystop":
+		// Start and Stop issued while another Stop is in progress (it waits for a busy actor, up to 1.2 s) return
+		// promptly with their error instead of waiting for that Stop to end.
+		sys := actor.NewSystem(vivid.WithActorSystemLogger(log.NewSilentLogger()))
+		if err := sys.Start(); err != nil {
+			return "-", ""
+		}
+		release, inKill := make(chan struct{}), make(chan struct{})
+		sys.ActorOf(vivid.ActorFN(func(c vivid.ActorContext) {
+			if _, ok := c.Message().(*vivid.OnKill); ok {
+				select {
+				case <-inKill:
+				default:
+					close(inKill)
+				}
+				<-release
+			}
+		}), vivid.WithActorName("busy"))
+		time.Sleep(20 * time.Millisecond)
+		first := make(chan error, 1)
+		go func() { first <- sys.Stop(1200 * time.Millisecond) }()
+		select {
+		case <-inKill:
+		case <-time.After(fsmBound):
+			close(release)
+			return "-", "HARNESS: busystop: the busy actor was never told to stop"
+		}
+		for _, call := range []string{"Stop", "Start", "Stop"} {
+			t0 := time.Now()
+			var r string
+			var done bool
+			if call == "Stop" {
+				r, done = bounded(func() error { return sys.Stop(50 * time.Millisecond) })
+			} else {
+				r, done = bounded(func() error { return sys.Start() })
+			}
+			if d := time.Since(t0); viol == "" && (!done || d > 500*time.Millisecond) {
+				viol = fmt.Sprintf("NOT-PROMPT: %s issued while another Stop is in progress returned %q after %v (that Stop is still waiting for a busy actor): further calls must return their error promptly instead of blocking", call, r, d.Round(10*time.Millisecond))
+			} else if viol == "" && r == "ok" {
+				viol = fmt.Sprintf("TWICE-OK: %s issued while another Stop is in progress returned nil", call)
+			}
+		}
+		close(release)
+		select {
+		case err := <-first:
+			if err != nil && viol == "" {
+				viol = fmt.Sprintf("SLOW-STOP: the first Stop (1.2 s) failed although the busy actor let go after about 0.1 s: %v", err)
+			}
+		case <-time.After(2 * fsmBound):
+			if viol == "" {
+				viol = "HANG: the first Stop did not return"
+			}
+		}
+		return "-", viol
+	case "selfstop":
+		// an actor that reacts to its own termination by stopping the system (a common shutdown idiom): the Stop
+		// that is already in progress must still succeed within its timeout, and the inner call returns its error
+		sys := actor.NewSystem(vivid.WithActorSystemLogger(log.NewSilentLogger()))
+		if err := sys.Start(); err != nil {
+			return "-", ""
+		}
+		inner := make(chan string, 4)
+		sys.ActorOf(vivid.ActorFN(func(c vivid.ActorContext) {
+			if _, ok := c.Message().(*vivid.OnKill); ok {
+				inner <- fsmRet(sys.Stop(50 * time.Millisecond))
+			}
+		}), vivid.WithActorName("stopper"))
+		time.Sleep(20 * time.Millisecond)
+		t0 := time.Now()
+		r, done := bounded(func() error { return sys.Stop(1000 * time.Millisecond) })
+		d := time.Since(t0)
+		switch {
+		case !done:
+			viol = fmt.Sprintf("HANG: Stop did not return within %v when an actor calls Stop from its OnKill handler", fsmBound)
+		case r != "ok":
+			viol = fmt.Sprintf("SELF-STOP: Stop(1 s) returned %q after %v because an actor called Stop from its OnKill handler (the two calls wait for each other)", r, d.Round(10*time.Millisecond))
+		case d > 600*time.Millisecond:
+			viol = fmt.Sprintf("NOT-PROMPT: Stop took %v because an actor called Stop from its OnKill handler", d.Round(10*time.Millisecond))
+		}
+		select {
+		case ir := <-inner:
+			if ir == "ok" && viol == "" {
+				viol = "TWICE-OK: the Stop called from inside the shutdown returned nil as well"
+			}
+		case <-time.After(fsmBound):
+			if viol == "" {
+				viol = "HANG: the Stop called from the OnKill handler never returned"
+			}
+		}
+		return "-", viol
 	case "census":
 		// after Stop: no goroutine of the system keeps running or stays blocked
 		time.Sleep(150 * time.Millisecond)
@@ -381,6 +471,15 @@ func (e *sysfsmEngine) Generate(c *Ctx) {
 	for r := 0; r < 2; r++ {
 		c.Case("slowstop")
 		c.R.Hit("slowstop")
+		c.R.Nontrivial()
+	}
+	// (2c) calls issued while a Stop is in progress: from other goroutines, and from an actor being stopped
+	for r := 0; r < 2; r++ {
+		c.Case("busystop")
+		c.R.Hit("busystop")
+		c.R.Nontrivial()
+		c.Case("selfstop")
+		c.R.Hit("selfstop")
 		c.R.Nontrivial()
 	}
 	// (3) goroutine census after a full Start/Stop cycle
